@@ -3,36 +3,51 @@ import PoryProofs.CmdParse
 import PoryProofs.SwitchParse
 import PoryProofs.AutoVarParse
 import PoryProofs.Properties.C11b
+import PoryProofs.CmdParseImp
 /-
 P1 (statement grammar), stage 1: the surface syntax of script bodies, its printer, the decidable
 token-type side conditions, and the reference elaboration.
 
-* `SStmt` (with `SElif`, `SElse`, `SCase`): surface statements; every constructor carries the tokens
-  it is printed with (arbitrary records: any positions, any literals; `swf…` fixes their types only).
-    command      `name ( a0 , a1 , … )` (as `C10b.printCmd`), `name ( )`, `name`
+* `SStmt` (with `SElif`, `SElse`, `SCase`, `SPCase`; conditions `SCond`): surface statements; every
+  constructor carries the tokens it is printed with (arbitrary records: any positions, any literals;
+  `swf…` fixes their types only).
+    command      `name ( a0 , a1 , … )` with plain / parenthesised arguments (`cmd`, as `C10b.printCmd`) or
+                 with arguments that may also contain string literals, typed strings and `moves( … )`
+                 (`cmdI`, `C10c.printCmdE`); `name ( )`; `name`
     label        `name :`, `name ( global|local ) :`
     if           `if ( c ) { … } [elif ( c ) { … }]* [else { … }]`
     while        `while ( c ) { … }`, `while { … }`
     do-while     `do { … } while ( c )`
     break / continue
-    switch       `switch ( var ( operand… ) ) { [case v… : …]* [default : …]* }`
-  Conditions `c` are the grammar `SOr` of `PoryProofs/BoolParse.lean` (all non-autovar leaf forms).
-* `printL : List SStmt → List Tok` (and `printS`, `printElifs`, `printElse`, `printCases`).
-* `swfL : List SStmt → Bool` — the token types (`lb.type = .LBRACE`, …), `C10b.ArgOK` for command
-  arguments, case values contain no `:` / EOF, switch operands no `)` / EOF.  `SWF b := swfL b = true`.
-* `elabL σ B C last b sid cid : Except PFail (List Stmt × Nat × Nat)` — the reference elaboration.
-  `σ` = constant substitution, `B` / `C` = the stacks of enclosing break-able / continue-able scope ids
-  (innermost first), `last` = "the block is closed by `}`" (false for a switch-case body followed by
-  another case), `sid` / `cid` = next scope id / next command id; the result carries the counters after
-  the block.  Command ids and scope ids are handed out in source order (a loop / switch takes its id
-  before its body).  The documented violations are the `.error` results, with the located error the
-  parser must report:
-    `break` outside any loop / switch, `continue` outside any loop, `continue` not directly followed
-    by `}`, duplicate `case` value, second `default`, `switch` without cases.
-  The first violation in source order is the result.
-* `Ctx`, `elaborate : Ctx → List SStmt → Option (List Stmt × Ctx)` (`elab` is a Lean keyword) — the
-  packaged form (`none` exactly for
-  the violations above; stacks of the result = stacks at entry by construction).
+    switch       `switch ( var ( operand… ) ) { [case v… : …]* [default : …]* }` (`switch_`),
+                 `switch ( name ( a0 , … ) ) { … }` on a configured auto-var command (`switchA`)
+    poryswitch   `poryswitch ( X ) { [key : stmt | key { … }]* }` (`pory`), nested to any depth
+  Conditions `c : SCond`: an expression of the grammar `SOr` of `PoryProofs/BoolParse.lean` (`||`, `&&`,
+  `!( )`, parentheses over all non-autovar leaf forms), or a single auto-var leaf `[!] name(…) [op N]`.
+* `printL : List SStmt → List Tok` (= `printStmts`; with `printS`, `printElifs`, `printElse`, `printCases`,
+  `printPCases`, `printCond`).
+* `swfL : List SStmt → Bool` — the token types (`lb.type = .LBRACE`, …), `C10b.ArgOK` / `C10c.argEOK` for
+  command arguments, case values contain no `:` / EOF, switch operands no `)` / EOF, poryswitch keys are
+  IDENT / INT.  `SWF b := swfL b = true`.
+* `elabL env sn σ B C last b sid cid : Except PFail (List Stmt × ImpData × Nat × Nat)` — the reference
+  elaboration.  `env` = the configuration (auto-var commands, `-s` switches, environment errors on/off), `sn`
+  = the script name (recorded in implicit texts / movements), `σ` = constant substitution, `B` / `C` = the
+  stacks of enclosing break-able / continue-able scope ids (innermost first), `last` = "the list is closed by
+  `}`" (false for a switch-case body followed by another case), `sid` / `cid` = next scope id / next command
+  id; the result: statements, their implicit data in source order, the counters after the list.
+  Ids are handed out in source order (a loop / switch takes its scope id before anything inside it; the
+  command of an auto-var condition takes its id when the condition is read: before the body of `if` /
+  `while`, after the body of `do … while`; ALL cases of a poryswitch are elaborated and take ids, the
+  statements (and implicit data) of the selected one are spliced in place).
+  The `.error` results are the located errors the parser must report (`Violation` in
+  `PoryProofs/StmtParseErr.lean`): `break` outside any loop / switch, `continue` outside any loop,
+  `continue` not directly followed by `}`, duplicate `case` value, second `default`, `switch` without cases;
+  an auto-var condition / switch operand that is not a configured command or whose configured argument
+  position addresses no argument; `poryswitch` without `-s` switches / with an undefined switch / without a
+  matching case (environment errors on).  The first one in source order is the result.
+* `Ctx`, `elabE`, `elaborate : Env → String → Ctx → List SStmt → Option (List Stmt × ImpData × Ctx)`
+  (`elab` is a Lean keyword) — the packaged form for a `{ … }` block (`none` exactly for the errors above;
+  stacks of the result = stacks at entry by construction).
 * `needL` — sufficient fuel, `needL_le : needL b ≤ 2 * (printL b).length + 1`.
 
 Stage 2 / 3 (the parser on printed blocks) is `PoryProofs/StmtParse.lean`.
@@ -40,6 +55,7 @@ Stage 2 / 3 (the parser on printed blocks) is `PoryProofs/StmtParse.lean`.
 namespace Pory.StmtG
 open Pory Pory.Parser Pory.C02P Pory.C10b Pory.SwitchParse
 open Pory.C14b (swVal)
+open Pory.C10c
 open Pory.C11b (operandName badPosMsg Form printAuto autoLeafT leftSideMsg)
 
 /-! ### surface syntax -/
@@ -68,6 +84,9 @@ mutual
 inductive SStmt where
   /-- `name ( a0 , a1 , … )`; `more` = (comma token, argument) pairs -/
   | cmd (name lp : Tok) (a0 : List Tok) (more : List (Tok × List Tok)) (rp : Tok)
+  /-- `name ( a0 , a1 , … )` whose arguments may contain string literals, typed strings and `moves( … )`
+  (`C10c.AElem`) -/
+  | cmdI (name lp : Tok) (a0 : List AElem) (more : List (Tok × List AElem)) (rp : Tok)
   /-- `name ( )` -/
   | cmdE (name lp rp : Tok)
   /-- `name` -/
@@ -118,6 +137,7 @@ end
 mutual
 def printS : SStmt → List Tok
   | .cmd name lp a0 more rp => printCmd name lp a0 more rp
+  | .cmdI name lp a0 more rp => printCmdE name lp a0 more rp
   | .cmdE name lp rp => [name, lp, rp]
   | .cmd0 name => [name]
   | .label name colon => [name, colon]
@@ -174,6 +194,9 @@ def swfS : SStmt → Bool
   | .cmd name lp a0 more rp =>
       name.type == .IDENT && lp.type == .LPAREN && rp.type == .RPAREN && decide (ArgOK a0) &&
         more.all (fun p => p.1.type == .COMMA && decide (ArgOK p.2))
+  | .cmdI name lp a0 more rp =>
+      name.type == .IDENT && lp.type == .LPAREN && rp.type == .RPAREN && argEOK a0 &&
+        more.all (fun p => p.1.type == .COMMA && argEOK p.2)
   | .cmdE name lp rp => name.type == .IDENT && lp.type == .LPAREN && rp.type == .RPAREN
   | .cmd0 name => name.type == .IDENT
   | .label name colon => name.type == .IDENT && colon.type == .COLON
@@ -303,60 +326,64 @@ def operandOf (σ : String → String) (ops : List Tok) (rp2 : Tok) : Tok :=
   { ops.headD rp2 with lit := joinSp (ops.map fun o => σ o.lit) }
 
 mutual
-/-- One statement. `nx` = the token after the statement is `}`. -/
-def elabS (env : Env) (σ : String → String) (B C : List Nat) (nx : Bool) :
-    SStmt → Nat → Nat → Except PFail (List Stmt × Nat × Nat)
+/-- One statement. `nx` = the token after the statement is `}`. The result: the statements, their implicit
+data (texts / movements of command arguments, in source order), the counters after the statement. -/
+def elabS (env : Env) (sn : String) (σ : String → String) (B C : List Nat) (nx : Bool) :
+    SStmt → Nat → Nat → Except PFail (List Stmt × ImpData × Nat × Nat)
   | .cmd name _ a0 more _, sid, cid =>
-      .ok ([cmdNode cid name ((a0 :: more.map (·.2)).map (renderArg σ))], sid, cid + 1)
-  | .cmdE name _ _, sid, cid => .ok ([cmdNode cid name []], sid, cid + 1)
-  | .cmd0 name, sid, cid => .ok ([cmdNode cid name []], sid, cid + 1)
-  | .label name _, sid, cid => .ok ([.label name name.lit false], sid, cid)
-  | .labelS name _ sc _ _, sid, cid => .ok ([.label name name.lit (sc.type == .GLOBAL)], sid, cid)
+      .ok ([cmdNode cid name ((a0 :: more.map (·.2)).map (renderArg σ))], {}, sid, cid + 1)
+  | .cmdI name _ a0 more _, sid, cid =>
+      .ok ([cmdNode cid name ((a0 :: more.map (·.2)).map (renderArgE σ))],
+        impArgs sn cid name 0 (a0 :: more.map (·.2)), sid, cid + 1)
+  | .cmdE name _ _, sid, cid => .ok ([cmdNode cid name []], {}, sid, cid + 1)
+  | .cmd0 name, sid, cid => .ok ([cmdNode cid name []], {}, sid, cid + 1)
+  | .label name _, sid, cid => .ok ([.label name name.lit false], {}, sid, cid)
+  | .labelS name _ sc _ _, sid, cid => .ok ([.label name name.lit (sc.type == .GLOBAL)], {}, sid, cid)
   | .ite ifTok _ c _ _ body _ elifs els, sid, cid =>
       match elabCond env σ c cid with
       | .error e => .error e
       | .ok (t, cid0) =>
-        match elabL env σ B C true body sid cid0 with
+        match elabL env sn σ B C true body sid cid0 with
         | .error e => .error e
-        | .ok (b, sid1, cid1) =>
-          match elabElifs env σ B C elifs sid1 cid1 with
+        | .ok (b, m1, sid1, cid1) =>
+          match elabElifs env sn σ B C elifs sid1 cid1 with
           | .error e => .error e
-          | .ok (es, sid2, cid2) =>
-            match elabElse env σ B C els sid2 cid2 with
+          | .ok (es, m2, sid2, cid2) =>
+            match elabElse env sn σ B C els sid2 cid2 with
             | .error e => .error e
-            | .ok (el, sid3, cid3) => .ok ([.ite ifTok t b es el], sid3, cid3)
+            | .ok (el, m3, sid3, cid3) => .ok ([.ite ifTok t b es el], m1.add (m2.add m3), sid3, cid3)
   | .while_ w _ c _ _ body _, sid, cid =>
       match elabCond env σ c cid with
       | .error e => .error e
       | .ok (t, cid0) =>
-        match elabL env σ (sid :: B) (sid :: C) true body (sid + 1) cid0 with
+        match elabL env sn σ (sid :: B) (sid :: C) true body (sid + 1) cid0 with
         | .error e => .error e
-        | .ok (b, sid1, cid1) => .ok ([.while_ w sid (some t) b], sid1, cid1)
+        | .ok (b, m1, sid1, cid1) => .ok ([.while_ w sid (some t) b], m1, sid1, cid1)
   | .whileInf w _ body _, sid, cid =>
-      match elabL env σ (sid :: B) (sid :: C) true body (sid + 1) cid with
+      match elabL env sn σ (sid :: B) (sid :: C) true body (sid + 1) cid with
       | .error e => .error e
-      | .ok (b, sid1, cid1) => .ok ([.while_ w sid none b], sid1, cid1)
+      | .ok (b, m1, sid1, cid1) => .ok ([.while_ w sid none b], m1, sid1, cid1)
   | .doWhile d _ body _ _ _ c _, sid, cid =>
-      match elabL env σ (sid :: B) (sid :: C) true body (sid + 1) cid with
+      match elabL env sn σ (sid :: B) (sid :: C) true body (sid + 1) cid with
       | .error e => .error e
-      | .ok (b, sid1, cid1) =>
+      | .ok (b, m1, sid1, cid1) =>
         match elabCond env σ c cid1 with
         | .error e => .error e
-        | .ok (t, cid2) => .ok ([.doWhile d sid t b], sid1, cid2)
+        | .ok (t, cid2) => .ok ([.doWhile d sid t b], m1, sid1, cid2)
   | .brk t, sid, cid =>
       match B with
       | [] => .error (breakOutsideErr t)
-      | b :: _ => .ok ([.brk t b], sid, cid)
+      | b :: _ => .ok ([.brk t b], {}, sid, cid)
   | .cont t, sid, cid =>
       match C with
       | [] => .error (continueOutsideErr t)
-      | c :: _ => if nx then .ok ([.cont t c], sid, cid) else .error (continueNotLastErr t)
+      | c :: _ => if nx then .ok ([.cont t c], {}, sid, cid) else .error (continueNotLastErr t)
   | .switch_ sw _ _ _ ops rp2 _ _ cases rb, sid, cid =>
-      match elabCases env σ (sid :: B) C cases [] false (sid + 1) cid with
+      match elabCases env sn σ (sid :: B) C cases [] false (sid + 1) cid with
       | .error e => .error e
-      | .ok (cs, sid1, cid1) =>
+      | .ok (cs, m1, sid1, cid1) =>
         if cs.isEmpty then .error (emptySwitchErr sw rb)
-        else .ok ([.switch_ sw sid (operandOf σ ops rp2) cs], sid1, cid1)
+        else .ok ([.switch_ sw sid (operandOf σ ops rp2) cs], m1, sid1, cid1)
   | .switchA sw _ name _ a0 more rp2 _ _ cases rb, sid, cid =>
       match env.autoVars.lookup name.lit with
       | none => .error (notAutoVarErr name)
@@ -364,94 +391,95 @@ def elabS (env : Env) (σ : String → String) (B C : List Nat) (nx : Bool) :
         match autoPosBad av (more.length + 1) with
         | some pos => .error (badPosErr name rp2 pos (more.length + 1))
         | none =>
-          match elabCases env σ (sid :: B) C cases [] false (sid + 1) (cid + 1) with
+          match elabCases env sn σ (sid :: B) C cases [] false (sid + 1) (cid + 1) with
           | .error e => .error e
-          | .ok (cs, sid1, cid1) =>
+          | .ok (cs, m1, sid1, cid1) =>
             if cs.isEmpty then .error (emptySwitchErr sw rb)
             else
               .ok ([cmdNode cid name ((a0 :: more.map (·.2)).map (renderArg σ)),
                     .switch_ sw sid
                       { name with type := .IDENT,
                                   lit := operandName av ((a0 :: more.map (·.2)).map (renderArg σ)) } cs],
-                   sid1, cid1)
+                   m1, sid1, cid1)
   | .pory ps _ x _ _ cases _, sid, cid =>
       if env.envErrors && env.switches.isEmpty then .error (noSwitchesErr ps)
       else if env.envErrors && (env.switches.lookup x.lit).isNone then .error (undefinedSwitchErr x)
       else
-        match elabPCases env σ B C cases [] sid cid with
+        match elabPCases env sn σ B C cases [] sid cid with
         | .error e => .error e
         | .ok (table, sid1, cid1) =>
           match selectCase env table (swVal env x.lit) with
-          | some r => .ok (r.1, sid1, cid1)
+          | some r => .ok (r.1, r.2, sid1, cid1)
           | none =>
-            if env.envErrors then .error (noPoryCaseErr ps x (swVal env x.lit)) else .ok ([], sid1, cid1)
+            if env.envErrors then .error (noPoryCaseErr ps x (swVal env x.lit)) else .ok ([], {}, sid1, cid1)
 /-- A statement list. `last` = the token after the list is `}`. -/
-def elabL (env : Env) (σ : String → String) (B C : List Nat) (last : Bool) :
-    List SStmt → Nat → Nat → Except PFail (List Stmt × Nat × Nat)
-  | [], sid, cid => .ok ([], sid, cid)
+def elabL (env : Env) (sn : String) (σ : String → String) (B C : List Nat) (last : Bool) :
+    List SStmt → Nat → Nat → Except PFail (List Stmt × ImpData × Nat × Nat)
+  | [], sid, cid => .ok ([], {}, sid, cid)
   | x :: r, sid, cid =>
-      match elabS env σ B C (r.isEmpty && last) x sid cid with
+      match elabS env sn σ B C (r.isEmpty && last) x sid cid with
       | .error e => .error e
-      | .ok (a, sid1, cid1) =>
-        match elabL env σ B C last r sid1 cid1 with
+      | .ok (a, m1, sid1, cid1) =>
+        match elabL env sn σ B C last r sid1 cid1 with
         | .error e => .error e
-        | .ok (b, sid2, cid2) => .ok (a ++ b, sid2, cid2)
-def elabElifs (env : Env) (σ : String → String) (B C : List Nat) :
-    List SElif → Nat → Nat → Except PFail (List (BoolExpr × List Stmt) × Nat × Nat)
-  | [], sid, cid => .ok ([], sid, cid)
+        | .ok (b, m2, sid2, cid2) => .ok (a ++ b, m1.add m2, sid2, cid2)
+def elabElifs (env : Env) (sn : String) (σ : String → String) (B C : List Nat) :
+    List SElif → Nat → Nat → Except PFail (List (BoolExpr × List Stmt) × ImpData × Nat × Nat)
+  | [], sid, cid => .ok ([], {}, sid, cid)
   | .mk _ _ c _ _ body _ :: r, sid, cid =>
       match elabCond env σ c cid with
       | .error e => .error e
       | .ok (t, cid0) =>
-        match elabL env σ B C true body sid cid0 with
+        match elabL env sn σ B C true body sid cid0 with
         | .error e => .error e
-        | .ok (b, sid1, cid1) =>
-          match elabElifs env σ B C r sid1 cid1 with
+        | .ok (b, m1, sid1, cid1) =>
+          match elabElifs env sn σ B C r sid1 cid1 with
           | .error e => .error e
-          | .ok (es, sid2, cid2) => .ok ((t, b) :: es, sid2, cid2)
-def elabElse (env : Env) (σ : String → String) (B C : List Nat) :
-    SElse → Nat → Nat → Except PFail (Option (List Stmt) × Nat × Nat)
-  | .none, sid, cid => .ok (none, sid, cid)
+          | .ok (es, m2, sid2, cid2) => .ok ((t, b) :: es, m1.add m2, sid2, cid2)
+def elabElse (env : Env) (sn : String) (σ : String → String) (B C : List Nat) :
+    SElse → Nat → Nat → Except PFail (Option (List Stmt) × ImpData × Nat × Nat)
+  | .none, sid, cid => .ok (none, {}, sid, cid)
   | .some _ _ body _, sid, cid =>
-      match elabL env σ B C true body sid cid with
+      match elabL env sn σ B C true body sid cid with
       | .error e => .error e
-      | .ok (b, sid1, cid1) => .ok (some b, sid1, cid1)
+      | .ok (b, m1, sid1, cid1) => .ok (some b, m1, sid1, cid1)
 /-- The cases of a switch. `seen` = the case values met so far, `hd` = a `default` was met. -/
-def elabCases (env : Env) (σ : String → String) (B C : List Nat) :
-    List SCase → List String → Bool → Nat → Nat → Except PFail (List SwitchCase × Nat × Nat)
-  | [], _, _, sid, cid => .ok ([], sid, cid)
+def elabCases (env : Env) (sn : String) (σ : String → String) (B C : List Nat) :
+    List SCase → List String → Bool → Nat → Nat → Except PFail (List SwitchCase × ImpData × Nat × Nat)
+  | [], _, _, sid, cid => .ok ([], {}, sid, cid)
   | .case c vs colon body :: r, seen, hd, sid, cid =>
       if seen.contains (caseValue σ vs) then .error (duplicateCaseErr c colon (caseValue σ vs))
       else
-        match elabL env σ B C r.isEmpty body sid cid with
+        match elabL env sn σ B C r.isEmpty body sid cid with
         | .error e => .error e
-        | .ok (b, sid1, cid1) =>
-          match elabCases env σ B C r (caseValue σ vs :: seen) hd sid1 cid1 with
+        | .ok (b, m1, sid1, cid1) =>
+          match elabCases env sn σ B C r (caseValue σ vs :: seen) hd sid1 cid1 with
           | .error e => .error e
-          | .ok (cs, sid2, cid2) => .ok ((caseTok σ vs colon, false, b) :: cs, sid2, cid2)
+          | .ok (cs, m2, sid2, cid2) => .ok ((caseTok σ vs colon, false, b) :: cs, m1.add m2, sid2, cid2)
   | .dflt d _ body :: r, seen, hd, sid, cid =>
       if hd then .error (secondDefaultErr d)
       else
-        match elabL env σ B C r.isEmpty body sid cid with
+        match elabL env sn σ B C r.isEmpty body sid cid with
         | .error e => .error e
-        | .ok (b, sid1, cid1) =>
-          match elabCases env σ B C r seen true sid1 cid1 with
+        | .ok (b, m1, sid1, cid1) =>
+          match elabCases env sn σ B C r seen true sid1 cid1 with
           | .error e => .error e
-          | .ok (cs, sid2, cid2) => .ok ((({} : Tok), true, b) :: cs, sid2, cid2)
+          | .ok (cs, m2, sid2, cid2) => .ok ((({} : Tok), true, b) :: cs, m1.add m2, sid2, cid2)
 /-- The cases of a poryswitch: ALL of them are elaborated, in source order (ids are handed out, violations
-reported); the result is the table the parser selects from (newest entry first). -/
-def elabPCases (env : Env) (σ : String → String) (B C : List Nat) :
+reported); the result is the table the parser selects from (newest entry first), each entry with its
+statements and their implicit data. -/
+def elabPCases (env : Env) (sn : String) (σ : String → String) (B C : List Nat) :
     List SPCase → List (String × List Stmt × ImpData) → Nat → Nat →
       Except PFail (List (String × List Stmt × ImpData) × Nat × Nat)
   | [], acc, sid, cid => .ok (acc, sid, cid)
   | .colon key _ x :: r, acc, sid, cid =>
-      match elabS env σ B C r.isEmpty x sid cid with
+      match elabS env sn σ B C r.isEmpty x sid cid with
       | .error e => .error e
-      | .ok (a, sid1, cid1) => elabPCases env σ B C r ((key.lit, a, {}) :: acc) sid1 cid1
+      | .ok (a, m1, sid1, cid1) => elabPCases env sn σ B C r ((key.lit, a, m1) :: acc) sid1 cid1
   | .brace key _ body _ :: r, acc, sid, cid =>
-      match elabL env σ B C true body sid cid with
+      match elabL env sn σ B C true body sid cid with
       | .error e => .error e
-      | .ok (a, sid1, cid1) => elabPCases env σ B C r ((key.lit, a, {}) :: acc) sid1 cid1
+      | .ok (a, m1, sid1, cid1) => elabPCases env sn σ B C r ((key.lit, a, m1) :: acc) sid1 cid1
 end
 
 /-- What the parser threads through a script body. -/
@@ -468,31 +496,32 @@ def ctxOf (s : PState) : Ctx :=
     breakStack := s.breakStack, continueStack := s.continueStack }
 
 /-- The reference elaboration with located errors, on a context (for a `{ … }` block). -/
-def elabE (env : Env) (c : Ctx) (b : List SStmt) : Except PFail (List Stmt × Ctx) :=
-  match elabL env (substC c.consts) c.breakStack c.continueStack true b c.nextSid c.nextCmdId with
+def elabE (env : Env) (sn : String) (c : Ctx) (b : List SStmt) : Except PFail (List Stmt × ImpData × Ctx) :=
+  match elabL env sn (substC c.consts) c.breakStack c.continueStack true b c.nextSid c.nextCmdId with
   | .error e => .error e
-  | .ok (stmts, sid, cid) => .ok (stmts, { c with nextSid := sid, nextCmdId := cid })
+  | .ok (stmts, imp, sid, cid) => .ok (stmts, imp, { c with nextSid := sid, nextCmdId := cid })
 
 /-- **The reference elaboration** of a `{ … }` block: `none` exactly for the documented violations. -/
-def elaborate (env : Env) (c : Ctx) (b : List SStmt) : Option (List Stmt × Ctx) := (elabE env c b).toOption
+def elaborate (env : Env) (sn : String) (c : Ctx) (b : List SStmt) : Option (List Stmt × ImpData × Ctx) :=
+  (elabE env sn c b).toOption
 
-theorem elaborate_some {env : Env} {c : Ctx} {b : List SStmt} {r : List Stmt × Ctx}
-    (h : elaborate env c b = some r) : elabE env c b = .ok r := by
+theorem elaborate_some {env : Env} {sn : String} {c : Ctx} {b : List SStmt} {r : List Stmt × ImpData × Ctx}
+    (h : elaborate env sn c b = some r) : elabE env sn c b = .ok r := by
   unfold elaborate at h
-  cases h' : elabE env c b with
+  cases h' : elabE env sn c b with
   | error e => rw [h'] at h; cases h
   | ok r' => rw [h'] at h; cases h; rfl
 
-theorem elaborate_none {env : Env} {c : Ctx} {b : List SStmt} (h : elaborate env c b = none) :
-    ∃ e, elabE env c b = .error e := by
+theorem elaborate_none {env : Env} {sn : String} {c : Ctx} {b : List SStmt}
+    (h : elaborate env sn c b = none) : ∃ e, elabE env sn c b = .error e := by
   unfold elaborate at h
-  cases h' : elabE env c b with
+  cases h' : elabE env sn c b with
   | error e => exact ⟨e, rfl⟩
   | ok r' => rw [h'] at h; cases h
 
 /-- The stacks of the resulting context are those at entry. -/
-theorem elabE_stacks {env : Env} {c c' : Ctx} {b : List SStmt} {stmts : List Stmt}
-    (h : elabE env c b = .ok (stmts, c')) :
+theorem elabE_stacks {env : Env} {sn : String} {c c' : Ctx} {b : List SStmt} {stmts : List Stmt}
+    {imp : ImpData} (h : elabE env sn c b = .ok (stmts, imp, c')) :
     c'.breakStack = c.breakStack ∧ c'.continueStack = c.continueStack ∧ c'.consts = c.consts := by
   unfold elabE at h
   split at h
@@ -516,6 +545,7 @@ def lastElse : SElse → Tok → Tok
 /-- The last token of a statement. -/
 def lastS : SStmt → Tok
   | .cmd _ _ _ _ rp => rp
+  | .cmdI _ _ _ _ rp => rp
   | .cmdE _ _ rp => rp
   | .cmd0 name => name
   | .label _ colon => colon
@@ -534,6 +564,7 @@ def lastS : SStmt → Tok
 mutual
 def needS : SStmt → Nat
   | .cmd _ _ a0 more _ => a0.length + (printMore more).length + 2
+  | .cmdI _ _ a0 more _ => needCmdE a0 more + 1
   | .cmdE _ _ _ => 2
   | .cmd0 _ => 1
   | .label _ _ => 1
@@ -579,6 +610,9 @@ theorem needCond_le (c : SCond) : needCond c ≤ 2 * (printCond c).length + 1 :=
 mutual
 theorem needS_le : (x : SStmt) → needS x + 1 ≤ 2 * (printS x).length
   | .cmd _ _ a0 more _ => by simp only [needS, printS, printCmd, List.length_cons, List.length_append, List.length_nil]; omega
+  | .cmdI name lp a0 more rp => by
+    have := needCmdE_le name lp a0 more rp
+    simp only [needS, printS]; omega
   | .cmdE _ _ _ => by simp [needS, printS]
   | .cmd0 _ => by simp [needS, printS]
   | .label _ _ => by simp [needS, printS]
